@@ -106,7 +106,7 @@ theorem snapshot_never_raises (recursive : Bool) (path : String) (st : Stat) (l 
   rw [hw] at this
   simp only at this
   subst this
-  exact ⟨_, by simp only [takeSnapshot, hw]⟩
+  exact ⟨Snap.build ((path, st) :: entries), by simp only [takeSnapshot, hw]⟩
 
 theorem walk_complete (root : String) (nodes : List VNode) (h : faultFree nodes = true) :
     (walk true root (.ok nodes)).1.Perm (allEntries root nodes) ∧ (walk true root (.ok nodes)).2 = none := by
